@@ -277,9 +277,11 @@ def fields (cal : CalId) (iso : IsoDate) : Option CalFields :=
 def tryNewIso (y : Int) (m : Nat) (d : Int) : Option IsoDate :=
   if 1 ≤ m ∧ m ≤ 12 ∧ 1 ≤ d ∧ d ≤ Greg.dim y m then some ⟨y, m, d⟩ else none
 
-/-- ISO date of an epoch day inside Temporal's limits (outside them every constructor refuses anyway). -/
+/-- ISO date of an epoch day in a window a year wider than Temporal's limits: date constructors refuse everything
+    outside the limits, a year-month is limited by its month only, so the first day of its calendar month may lie
+    a few days before the first representable day (beyond the window every constructor refuses anyway). -/
 def isoOfDay (n : Int) : Option IsoDate :=
-  if -MAX_EPOCH_DAYS ≤ n ∧ n ≤ MAX_EPOCH_DAYS then
+  if -(MAX_EPOCH_DAYS + 400) ≤ n ∧ n ≤ MAX_EPOCH_DAYS + 400 then
     let r := NS.ymdFromEpochDays n
     some ⟨r.1, r.2.1, r.2.2⟩
   else none
